@@ -18,6 +18,7 @@ import (
 	"sort"
 	"strconv"
 	"strings"
+	"sync"
 	"sync/atomic"
 
 	"govc/internal/core"
@@ -67,20 +68,20 @@ type ROp struct {
 
 // ReplaySpec is one concrete experiment for the harness.
 type ReplaySpec struct {
-	ID     int                `json:"id"`
-	Rel    string             `json:"rel"`
-	Method string             `json:"method,omitempty"`
-	Src    string             `json:"src"`
-	Mask   int                `json:"mask"`
-	Ev     bool               `json:"ev"`
-	Costs  string             `json:"costs,omitempty"`
-	Undef  bool               `json:"undef,omitempty"`
-	Vars   map[string]RBind   `json:"vars,omitempty"`   // "name" or "name@key"
-	Avail  map[string]bool    `json:"avail,omitempty"`  // missing = available
-	Vars2  map[string]RBind   `json:"vars2,omitempty"`  // completion binding
-	Avail2 map[string]bool    `json:"avail2,omitempty"` // second availability (monotonicity)
-	Ops    map[string][]ROp   `json:"ops,omitempty"`
-	Extra  map[string]string  `json:"extra,omitempty"`
+	ID     int               `json:"id"`
+	Rel    string            `json:"rel"`
+	Method string            `json:"method,omitempty"`
+	Src    string            `json:"src"`
+	Mask   int               `json:"mask"`
+	Ev     bool              `json:"ev"`
+	Costs  string            `json:"costs,omitempty"`
+	Undef  bool              `json:"undef,omitempty"`
+	Vars   map[string]RBind  `json:"vars,omitempty"`   // "name" or "name@key"
+	Avail  map[string]bool   `json:"avail,omitempty"`  // missing = available
+	Vars2  map[string]RBind  `json:"vars2,omitempty"`  // completion binding
+	Avail2 map[string]bool   `json:"avail2,omitempty"` // second availability (monotonicity)
+	Ops    map[string][]ROp  `json:"ops,omitempty"`
+	Extra  map[string]string `json:"extra,omitempty"`
 }
 
 // ReplayOut is the harness verdict.
@@ -166,6 +167,10 @@ func decodeErr(s string) string {
 		n, _ := parseModelInt(sx.List[1].String())
 		return strconv.FormatInt(n, 10)
 	}
+	if len(sx.List) == 2 && sx.List[0].Atom == "EBuiltin" {
+		n, _ := parseModelInt(sx.List[1].String())
+		return "builtin" + strconv.FormatInt(n, 10)
+	}
 	return "?"
 }
 
@@ -219,6 +224,25 @@ func FillSpec(spec *ReplaySpec, model map[string]string, valueTerms []string) {
 			spec.Avail2[bindName(t[3:])] = v == "true"
 		}
 	}
+	// a variable whose value the query does not constrain gets an in-domain default
+	fillDefault := func(m map[string]RBind) {
+		for n, b := range m {
+			if b.E == "" && b.V.K == "" {
+				name := n
+				if i := strings.Index(n, "@"); i >= 0 {
+					name = n[:i]
+				}
+				if Alpha.IsBoolVar(name) {
+					b.V = RVal{K: "bool", B: true}
+				} else {
+					b.V = RVal{K: "int", I: 1}
+				}
+				m[n] = b
+			}
+		}
+	}
+	fillDefault(spec.Vars)
+	fillDefault(spec.Vars2)
 	// custom operator applications: terms "(cv_<op>_<n> args...)" or "cv_<op>_0"
 	for _, t := range valueTerms {
 		var head string
@@ -268,6 +292,13 @@ func FillSpec(spec *ReplaySpec, model map[string]string, valueTerms []string) {
 		}
 		if v, ok := get(et); ok {
 			ent.E = decodeErr(v)
+		}
+		if ent.E == "" && ent.V.K == "" { // value not constrained by the query: in-domain default
+			if op == Alpha.CustomBool {
+				ent.V = RVal{K: "bool", B: false}
+			} else {
+				ent.V = RVal{K: "int", I: 0}
+			}
 		}
 		dup := false
 		for _, x := range spec.Ops[op] {
@@ -447,33 +478,66 @@ func (cx *Checker) ReplayAll(obls []*core.Obl) {
 	if len(specs) == 0 {
 		return
 	}
-	const maxBatch = 400
-	for lo := 0; lo < len(specs); lo += maxBatch {
-		hi := lo + maxBatch
-		if hi > len(specs) {
-			hi = len(specs)
-		}
-		dir := filepath.Join(cx.env.Verif, "replays", cx.prop, "run")
-		outs, cmdline, output, err := runReplays(cx.env, dir, specs[lo:hi])
-		for _, s := range specs[lo:hi] {
-			o := byID[s.ID]
-			r := outs[s.ID]
-			if r == nil {
-				msg := "replay produced no verdict"
-				if err != nil {
-					msg = err.Error()
-				}
-				o.Replay = &core.ReplayResult{Confirmed: false, Cmd: cmdline, Output: trunc(msg+"\n"+output, 1500)}
+	// batches: experiments that are expected not to terminate go into small
+	// batches of their own (each costs the harness a time-out); batches run in parallel
+	var batches [][]*ReplaySpec
+	var hangy, normal []*ReplaySpec
+	for _, s := range specs {
+		if strings.HasPrefix(s.Rel, "unwind") {
+			if len(hangy) >= 30 {
+				// non-termination is expensive to demonstrate: 30 inputs are replayed, the others keep their model
+				byID[s.ID].Replay = &core.ReplayResult{Confirmed: false, Output: "not replayed: the replay budget for non-terminating inputs (30 per run) is used up; the decoded input is in the witness"}
 				continue
 			}
-			o.Replay = &core.ReplayResult{Confirmed: r.Confirmed, Cmd: cmdline,
-				Output:   fmt.Sprintf("real: %s | specification: %s | %s", r.Got, r.Want, r.Detail),
-				TestFile: filepath.Join(dir, "replay_test.go.txt")}
-			if r.Confirmed && o.Query != "" {
-				o.Witness += fmt.Sprintf(" => real %s, specification %s", trunc(r.Got, 300), trunc(r.Want, 300))
-			}
+			hangy = append(hangy, s)
+		} else {
+			normal = append(normal, s)
 		}
 	}
+	for lo := 0; lo < len(hangy); lo += 6 {
+		batches = append(batches, hangy[lo:minInt(lo+6, len(hangy))])
+	}
+	for lo := 0; lo < len(normal); lo += 300 {
+		batches = append(batches, normal[lo:minInt(lo+300, len(normal))])
+	}
+	var wg sync.WaitGroup
+	sem := make(chan struct{}, 6)
+	for bi, batch := range batches {
+		wg.Add(1)
+		sem <- struct{}{}
+		go func(bi int, batch []*ReplaySpec) {
+			defer wg.Done()
+			defer func() { <-sem }()
+			dir := filepath.Join(cx.env.Verif, "replays", cx.prop, fmt.Sprintf("run%02d", bi))
+			outs, cmdline, output, err := runReplays(cx.env, dir, batch)
+			for _, s := range batch {
+				o := byID[s.ID]
+				r := outs[s.ID]
+				if r == nil {
+					msg := "replay produced no verdict"
+					if err != nil {
+						msg = err.Error()
+					}
+					o.Replay = &core.ReplayResult{Confirmed: false, Cmd: cmdline, Output: trunc(msg+"\n"+output, 800)}
+					continue
+				}
+				o.Replay = &core.ReplayResult{Confirmed: r.Confirmed, Cmd: cmdline,
+					Output:   fmt.Sprintf("real: %s | specification: %s | %s", trunc(r.Got, 2000), trunc(r.Want, 2000), r.Detail),
+					TestFile: filepath.Join(dir, "replay_test.go.txt")}
+				if r.Confirmed && o.Query != "" {
+					o.Witness += fmt.Sprintf(" => real %s, specification %s", trunc(r.Got, 300), trunc(r.Want, 300))
+				}
+			}
+		}(bi, batch)
+	}
+	wg.Wait()
+}
+
+func minInt(a, b int) int {
+	if a < b {
+		return a
+	}
+	return b
 }
 
 // Replay replays one obligation (used by govc when a stored obligation is re-run).
